@@ -877,6 +877,13 @@ func (e *evalEnv) call(n *Node) *Val {
 			e.fail("untainted: %v", err)
 		}
 		return e.eval(n)
+	case "apart":
+		// the backing array (up to its capacity) of slice x does not overlap the object pointed to by p
+		x := e.eval(args[0])
+		p := e.eval(args[1])
+		es := intLit(int64(slots(elemOf(x.T))))
+		n := intLit(int64(allocSlots(elemOf(p.T))))
+		return bval(or(eq(x.L[2], "0"), le(add(x.L[0], mul(x.L[2], es)), p.L[0]), ge(x.L[0], add(p.L[0], n))))
 	case "heapobj":
 		// the slice is nil or lies outside the static data area (constants, package-level variables)
 		x := e.eval(args[0])
